@@ -22,6 +22,12 @@ CLAIMED = {
          "TLC model checking of Tape writer/scanner + TLC-written streams replayed into the tool's reader + TLC validation of tool-written tapes", "7 C06"),
  "C14": ("same runs as C06, structural clauses: the spec's scanner (sync, type, length, payload, checksum, trailer, block order, <=255-byte payloads, 15-byte name block) must accept every tape the tool writes, recover exactly the files, and count 2 + ceil(len/255) blocks per file; chunking law checked by TLC for all 65536 lengths",
          "TLC model checking of Tape writer/scanner + exhaustive chunking law + TLC validation of tool-written tapes", "7 C14"),
+ "C07": ("spec/Disk.tla (abstract allocation machine) + spec/Tr_Disk.tla (byte-level Disk BASIC reader following chains in FAT order); every add of every history is judged per file, the tool's own listing must return all files stored so far, and images written by the specification with arbitrary, non-adjacent chains must be listed exactly by the tool",
+         "TLC model checking of the Disk allocation machine (real and small geometry, exhaustion runs, exhaustive length bookkeeping) + TLC-exported add-sequences replayed into DiskFile + TLC validation of per-add image deltas (Tr_Disk)", "7 C07/C08/C15"),
+ "C08": ("after every add TLC evaluates the Disk BASIC consistency clauses on the image delta: one new directory slot, chain within 0..67 without revisits ending in a marker with 0..9 sectors, chains disjoint / nothing of the old files touched, implied length = stream length, stream in chain order = header/data/trailer, directory fields, no byte changed outside the allocated granules, FAT and directory sectors, image size 161,280",
+         "TLC model checking of the Disk allocation machine (real and small geometry, exhaustion runs, exhaustive length bookkeeping) + TLC-exported add-sequences replayed into DiskFile + TLC validation of per-add image deltas (Tr_Disk)", "7 C07/C08/C15"),
+ "C15": ("Disk.tla states enabledness of AddFile exactly (granules needed vs free, slot free) and TLC checks Capacity / FitsIfRoom / exhaustion runs (72 slots, 68 granules); replayed sequences must succeed when the machine says they must fit and fail when they cannot, using the minimum number of granules (or one more at exact multiples), all previously free, and one slot",
+         "TLC model checking of the Disk allocation machine (real and small geometry, exhaustion runs, exhaustive length bookkeeping) + TLC-exported add-sequences replayed into DiskFile + TLC validation of per-add image deltas (Tr_Disk)", "7 C07/C08/C15"),
 }
 NOT_YET = {}
 props = [json.loads(l) for l in open(V + "/properties.jsonl")]
